@@ -109,6 +109,45 @@ def run_impl_fresh(cases, timeout=60, jobs=None):
         pool.terminate()
 
 
+def _cov_worker(payload):
+    cases, timeout, repo, files = payload
+    import coverage
+    cov = coverage.Coverage(data_file=None, include=[os.path.join(repo, f) for f in files] or [os.path.join(repo, "prtpy", "*")])
+    cov.start()
+    from harness import impl
+    for c in cases:
+        try:
+            impl.run_case(c, timeout)
+        except Exception:
+            pass
+    cov.stop()
+    out = {}
+    for f in files:
+        path = os.path.join(repo, f)
+        try:
+            _, stmts, _, missing, _ = cov.analysis2(path)
+            out[f] = [len(stmts) - len(missing), len(stmts)]
+        except Exception as e:      # noqa
+            out[f] = [0, 0]
+    return out
+
+
+def coverage_sample(cases, files, timeout=20, limit=400):
+    """statement coverage of the anchored source files by a sample of this run's cases (one fresh process, coverage.py)"""
+    if not cases or not files:
+        return {}
+    repo = os.environ.get("PRTPY_REPO", "/repo")
+    step = max(1, len(cases) // limit)
+    sample = cases[::step][:limit]
+    pool = mp.get_context("spawn").Pool(1)
+    try:
+        return pool.apply(_cov_worker, ((sample, timeout, repo, list(files)),))
+    except Exception as e:      # noqa
+        return {"error": str(e)[:200]}
+    finally:
+        pool.terminate()
+
+
 def close_pool():
     global _pool
     if _pool is not None:
